@@ -268,6 +268,9 @@ func ruleTreePrinters(c *core.Ctx, rule string) {
 		check := func(s *absint.State, where string) {
 			d := s.Data
 			if d["rows"] == "" && d["rec"] == "" {
+				if where == "backedge" {
+					bad = append(bad, "a child is passed over: no row is printed for it and its subtree is not visited ("+x.Valuation(s)+"): the branch, and everything below it, is missing from the report")
+				}
 				return
 			}
 			kids0, kids1 := d["kids0"], d["kids1"]               // outcomes of ord(0,len) and ord(1,len)
@@ -298,7 +301,7 @@ func ruleTreePrinters(c *core.Ctx, rule string) {
 			if f.Fn != fn || len(s.Frames) != 1 {
 				return
 			}
-			check(s, "")
+			check(s, "backedge")
 			for _, k := range []string{"rows", "rec", "kids0", "kids1", "grand0", "grand1", "jump", "total", "wrongtotal"} {
 				s.SetData(k, "")
 			}
